@@ -159,6 +159,7 @@ class LoopParser(SubParser):
         if not self._init_index_var(context_stack):
             return False
         if self.current_token.is_a(TokenTypes.IN):
+            context_stack.add_variable(self._index_var)
             code_gen.add_instruction(OpCode.MOVEQ, 0, LoopVar.COUNTER)
             self._loop_type = _LoopType.LIST
             self.next_token()
@@ -174,6 +175,9 @@ class LoopParser(SubParser):
         else:
             return self.token_error(
                 'Needed "from" or "cycle", got "{}"')
+        # Known as a variable only from here on: the bounds above are
+        # evaluated before the variable gets its first value.
+        context_stack.add_variable(self._index_var)
         return True
 
     def _pre_loop_and(self) -> bool:
@@ -211,7 +215,6 @@ class LoopParser(SubParser):
         self._index_var = str(self.current_token)
         if not self._assignable(context_stack):
             return False
-        context_stack.add_variable(self._index_var)
         return self.next_token()
 
     def _index_var_range(self, code_gen) -> bool:
